@@ -571,6 +571,7 @@ def semantic(prog, before, after, vanished=frozenset()):
     loop_ids = {n for n, r in occ.items() if "loop_ident" in r}
     observed = sorted(set(occ) - loop_ids)
     explained, uses_hoist, uses_vanished = True, False, False
+    only_lost_calls, lost_any = True, False
     bad = None
     seq_differs = False
     for env in valuations(prog, occ):
@@ -592,19 +593,23 @@ def semantic(prog, before, after, vanished=frozenset()):
             seq_differs = True
         if not diff_names and c0 == c1:
             continue
-        expl = not (c0 - c1) and set(diff_names) <= set(vanished)
         extra = c1 - c0
-        if expl and extra:
+        extra_ok = True
+        if extra:
             try:
                 _, le = run(before, env, eager=True)
-                expl = not (extra - (Counter(le) - c0))
+                extra_ok = not (extra - (Counter(le) - c0))
             except Exception:
-                expl = False
+                extra_ok = False
+        expl = not (c0 - c1) and set(diff_names) <= set(vanished) and extra_ok
         if expl:
             uses_hoist = uses_hoist or bool(extra)
             uses_vanished = uses_vanished or bool(diff_names)
         else:
             explained = False
+            if not (bool(c0 - c1) and set(diff_names) <= set(vanished) and extra_ok):
+                only_lost_calls = False
+            lost_any = True
         if bad is None or not expl:
             diffs = [(n, e0.get(n), e1.get(n)) for n in diff_names]
             bad = "valuation %s: values (name, before, after) %s; calls only before %s; calls only after %s" % (
@@ -615,7 +620,8 @@ def semantic(prog, before, after, vanished=frozenset()):
         return True, "", {"seq_differs": seq_differs}
     return False, bad, {"explained": explained, "uses_hoist": explained and uses_hoist,
                         "uses_vanished": explained and uses_vanished,
-                        "hoist_only": explained and uses_hoist and not uses_vanished}
+                        "hoist_only": explained and uses_hoist and not uses_vanished,
+                        "only_lost_calls": lost_any and only_lost_calls}
 
 
 _MEMO = {}
@@ -830,6 +836,59 @@ def fp_nested_if(inp):
     return True
 
 
+def has_call_times_zero(prog):
+    """a product with a constant factor 0 and a call in another factor (flatten() rewrites it to 0)"""
+    hit = []
+
+    def factors(e, acc):
+        if e[0] == "*":
+            factors(e[1], acc)
+            factors(e[2], acc)
+        else:
+            acc.append(e)
+        return acc
+
+    def contains_call(e):
+        found = []
+        _walk_json(e, lambda x, ic, ib: found.append(1) if x[0] == "call" else None)
+        return bool(found)
+
+    def const(e):
+        if e[0] == "c":
+            return e[1]
+        if e[0] in ("+", "*"):
+            a, b = const(e[1]), const(e[2])
+            if e[0] == "*" and (a == 0 or b == 0) and (a is not None or b is not None):
+                return 0
+            if a is None or b is None:
+                return None
+            return a + b if e[0] == "+" else a * b
+        return None
+
+    def visit(x, ic, ib):
+        if x[0] == "*":
+            fs = factors(x, [])
+            if any(const(f) == 0 for f in fs) and any(contains_call(f) for f in fs):
+                hit.append(1)
+    for s in prog["stmts"]:
+        es = _stmt_exprs(s) if s["k"] == "assign" else list(s["args"]) + list((s.get("kw") or {}).values())
+        for e in es:
+            _walk_json(e, visit)
+    return bool(hit)
+
+
+def fp_zero_product(inp):
+    """a statement-level call has an argument f(..)*0: the isolating pass moves it into a new Assign, whose
+    constructor flatten()s it to 0, so the call f(..) is no longer made; nothing else differs (apart from calls
+    hoisted out of untaken branches and regenerated vanished names, which have their own fingerprints)"""
+    if inp.get("clause") != "same-values-and-calls" or inp.get("pipeline") not in ("args", "fortran"):
+        return False
+    if not has_call_times_zero(inp["program"]):
+        return False
+    res = check(inp)
+    return bool(res) and all(data.get("only_lost_calls") for _, _, _, data in res)
+
+
 def fp_vanished(inp):
     """a user variable that no longer occurs in any statement after an earlier pass (its only use was simplified
     away when the statement was rebuilt, e.g. 0*tmp_0 -> 0) is generated again by a later pass; only the final
@@ -841,6 +900,7 @@ def fp_vanished(inp):
 
 
 FINGERPRINTS = {
+    "call_times_zero_flattened_away": fp_zero_product,
     "vanished_name_generated_by_later_pass": fp_vanished,
     "nested_if_inner_statements_before_outer_flag": fp_nested_if,
     "D9_capture_loop_bound_or_lhs_subscript": fp_d9,
